@@ -13,8 +13,11 @@ group wrappers, counters of other types, unknown elements) between the elements 
 A `<method>` may lack its `line` attribute (report.dtd: `#IMPLIED`), a `<class>` its
 `sourcefilename`.
 
-* `wfSrc x`: the serialisation is well formed (distinct attribute keys, required attributes present
-  and readable), line numbers are unique within a source file and source-file names within a package.
+* `wfSrc x`: the serialisation is well formed (distinct attribute keys – XML demands it; since /repo
+  ae885a6 the parser itself no longer checks it, see `C10_repeated_attribute_first_match` and
+  `C10_line_repeated_attribute_last_wins` for what it does with a repeated key –, no attribute
+  syntax error, required attributes present and readable), line numbers are unique within a source
+  file and source-file names within a package.
   Nothing is asked of method names: overloads (`<init>` twice) are allowed.
 * `wf x` = `wfSrc x` + method names unique within their class and `Class#method` unique within a
   file. THIS IS THE QUANTIFIER OF THE PROPERTY TEXT ("methods with names unique within their class"):
@@ -138,11 +141,65 @@ theorem C10_ignored_do_not_matter (cap : Nat) (x y : XReport) (hx : wfSrc x = tr
     C10_fidelity_overloads cap y hy gy _ (Nat.le_refl _), h]
 
 /-- Attribute order does not matter to `get_xml_attribute` (every outcome, errors included), as
-long as the keys are distinct, which XML requires. -/
+long as the keys are distinct, which XML requires, and the start tag has no attribute syntax error
+(`NoErr`: no empty-key marker). With a repeated key the order does matter: the first one is
+returned (`C10_repeated_attribute_first_match`). -/
 theorem C10_attribute_order_irrelevant (key : Name) (attrs attrs' : List Attr)
-    (nd : (attrs.map (·.1)).Nodup) (p : attrs.Perm attrs') :
+    (nd : (attrs.map (·.1)).Nodup) (ne : NoErr attrs) (p : attrs.Perm attrs') :
     getAttr key attrs = getAttr key attrs' :=
-  getAttr_perm key nd p
+  getAttr_perm key nd ne p
+
+/-- Repeated attribute (since /repo ae885a6 the attributes are iterated `with_checks(false)`: a
+repeated name is no longer `ParserError::Parse`): `get_xml_attribute` returns the FIRST attribute
+with the key – its unescaped value, or `Parse` when its value has a bad entity – whatever follows
+it: further attributes with the same key, even an attribute syntax error further to the right. -/
+theorem C10_repeated_attribute_first_match (key raw : Name) (pre post : List Attr)
+    (hp : NoErr pre) (hk : ∀ a ∈ pre, a.1 ≠ key) (hne : key ≠ []) :
+    getAttr key (pre ++ (key, raw) :: post)
+      = match unescape raw with
+        | some s => .ok s
+        | none => .error .parse :=
+  getAttr_first_match key raw pre post hp hk hne
+
+/-- An attribute SYNTAX error (no `=`, no quotes, unterminated value: the empty-key marker) that
+the iteration reaches before it finds the key is `ParserError::Parse` – the check that was
+switched off concerns repeated names only. -/
+theorem C10_attribute_syntax_error_is_parse (key : Name) (pre post : List Attr) (hp : NoErr pre)
+    (hk : ∀ a ∈ pre, a.1 ≠ key) (v : Name) :
+    getAttr key (pre ++ ([], v) :: post) = .error .parse :=
+  getAttr_error_before key pre post hp hk v
+
+/-- `<line>`: the loop visits every attribute, so of a repeated `ci` / `cb` / `mb` / `nr` the LAST
+one wins – appending one more of them to any attribute list that is read without error replaces
+the value read so far (before ae885a6: `Parse`). -/
+theorem C10_line_repeated_attribute_last_wins (attrs : List Attr) (acc acc' : LineAcc) (v : Name)
+    (n : Nat) (h : lineAttrs attrs acc = .ok acc') :
+    (parseUnsigned U64MAX v = some n →
+      lineAttrs (attrs ++ [(sCi, v)]) acc = .ok { acc' with ci := some n }
+      ∧ lineAttrs (attrs ++ [(sCb, v)]) acc = .ok { acc' with cb := some n }
+      ∧ lineAttrs (attrs ++ [(sMb, v)]) acc = .ok { acc' with mb := some n })
+    ∧ (parseUnsigned U32MAX v = some n →
+      lineAttrs (attrs ++ [(sNr, v)]) acc = .ok { acc' with nr := some n }) := by
+  refine ⟨fun hv => ⟨?_, ?_, ?_⟩, fun hv => ?_⟩ <;>
+    (rw [lineAttrs_append, h]; simp [lineAttrs, hv, sCi, sCb, sMb, sNr])
+
+/-- Review item 11 (the cost of the removed check was quadratic in the attributes of ONE element):
+in the model the attribute work of an element is linear. `getAttrWork key a` / `lineAttrsWork a`
+count the attributes the iterator yields during one `get_xml_attribute` call / the `<line>` loop;
+each is at most the number of attributes, and an element is asked for at most two keys
+(`<class>`: name, sourcefilename; `<method>`: name, line; `<counter>`: type, covered; `<package>`,
+`<sourcefile>`: name), so the work per element is at most look-ups × attributes ≤ 2·|attrs|.
+(Model-level statement; the running time itself is measured by C14's scaling stream and by the
+c10 witness `many_attributes`.) -/
+theorem C10_attribute_work_linear (keys : List Name) (attrs : List Attr) :
+    attrWork keys attrs ≤ keys.length * attrs.length
+    ∧ (∀ k, getAttrWork k attrs ≤ attrs.length)
+    ∧ lineAttrsWork attrs ≤ attrs.length
+    ∧ attrWork [sName, sSourcefilename] attrs ≤ 2 * attrs.length
+    ∧ attrWork [sName, sLine] attrs ≤ 2 * attrs.length
+    ∧ attrWork [sType, sCovered] attrs ≤ 2 * attrs.length :=
+  ⟨attrWork_le keys attrs, fun k => getAttrWork_le k attrs, lineAttrsWork_le attrs,
+   attrWork_le _ attrs, attrWork_le _ attrs, attrWork_le _ attrs⟩
 
 /-- The order of `<class>` and `<sourcefile>` elements inside a package does not change what the
 package denotes: the same files, for each file the same lines and branches and the same set of
@@ -230,7 +287,7 @@ method) without `type`, a METHOD counter without `covered`, `<class>`/`<sourcefi
 mapped to `<top-level class>.java`; a method without METHOD counter is not executed; `desc`,
 `missed` and every other attribute are never read. -/
 theorem C10_missing_attribute_outcomes (n : Name) (a : List Attr) (rest : List XmlEvent)
-    (fuel : Nat) (nd : nodupKeys a = true) :
+    (fuel : Nat) (nd : keysOk a = true) :
     (localName n = sMethod → (∃ nm, hasAttr a sName nm = true) → hasNoKey a sLine = true →
       ∀ cls fns, classLoop cls (fuel + 1) (.start n a :: rest) fns = .err .invalidRecord) ∧
     (localName n = sMethod → hasNoKey a sName = true →
@@ -250,6 +307,41 @@ theorem C10_missing_attribute_outcomes (n : Name) (a : List Attr) (rest : List X
    fun hn h1 cap pkg m => class_or_sourcefile_without_name cap pkg n a rest fuel m hn nd h1,
    fun h top => class_without_sourcefilename a top nd h,
    fun m h => method_without_counter m h⟩
+
+/-- What the code does with a `sourcefilename` it cannot read (`get_xml_attribute(..).unwrap_or(
+format!("{}.java", top_class))` swallows EVERY error of the look-up, not only "absent"): a bad
+entity, an attribute syntax error before it – and, in the real code, a value that is not valid UTF-8
+(an ISO-8859-1 report; decoding is outside the model) – select the fallback `<TopLevelClass>.java`.
+Finding C10-undecodable-sourcefilename-falls-back (harness `ties.encoding.latin1`). -/
+theorem C10_unreadable_sourcefilename_falls_back (a : List Attr) (top : Name) (k : ErrKind)
+    (h : getAttr sSourcefilename a = .error k) : sourceFileOf a top = top ++ sDotJava := by
+  unfold sourceFileOf; rw [h]
+
+/-- "a class whose `sourcefilename` cannot be read makes the report an error": the statement one
+would expect of a faithful reader (a wrong file name attributes the functions to another file) -/
+def C10_unreadable_sourcefilename_is_error_stmt : Prop :=
+  ∀ (pkg cls mth : List Attr) (fuel : Nat),
+    getAttr sSourcefilename cls = .error .parse →
+    parse [.start sPackage pkg, .start sClass cls, .empty sMethod mth, .end_ sClass, .end_ sPackage]
+      (fuel + 11) = .err .parse
+
+/-- … is FALSE of the code: `<package name="p"><class name="p/A" sourcefilename="&x;"><method
+name="m" line="1"/></class></package>` reports the function `A#m` on `p/A.java`. -/
+theorem C10_unreadable_sourcefilename_is_error_false :
+    ¬ C10_unreadable_sourcefilename_is_error_stmt := by
+  intro h
+  have := h [(sName, [112])] [(sName, [112, 47, 65]), (sSourcefilename, [38, 120, 59])]
+    [(sName, [109]), (sLine, [49])] 0 (by rfl)
+  revert this
+  decide +kernel
+
+/-- The provable part, under exactly the guard the witness violates: when the `sourcefilename`
+attribute is readable it is used, when it is absent (no attribute syntax error in the tag) the
+fallback is used. -/
+theorem C10_unreadable_sourcefilename_partial (a : List Attr) (top f : Name) :
+    (getAttr sSourcefilename a = .ok f → sourceFileOf a top = f)
+    ∧ (keysOk a = true → hasNoKey a sSourcefilename = true → sourceFileOf a top = top ++ sDotJava) :=
+  ⟨fun h => by unfold sourceFileOf; rw [h], fun nd h => class_without_sourcefilename a top nd h⟩
 
 /-- End of input inside a `<package>`, `<class>`, `<method>` or `<sourcefile>` element is
 `ParserError::Parse` (every nested loop has an `Eof` arm since 34e25d5). -/
@@ -271,19 +363,19 @@ theorem C10_truncated_report_is_parse_error (fuel : Nat) :
 /-- A `<package>` without a `name` attribute is `ParserError::InvalidRecord`. -/
 theorem C10_missing_package_name_is_invalid_record (n : Name) (a : List Attr)
     (rest : List XmlEvent) (fuel : Nat) (hn : localName n = sPackage)
-    (nd : nodupKeys a = true) (h : hasNoKey a sName = true) :
+    (nd : keysOk a = true) (h : hasNoKey a sName = true) :
     parse (.start n a :: rest) (fuel + 1) = .err .invalidRecord :=
   parse_package_without_name n a rest fuel hn nd h
 
-/-- `<line>` attributes: whatever fails while the attributes are read (a repeated key, a value
-that is not an unsigned number of the right width) is `ParserError::Parse`; a missing
+/-- `<line>` attributes: whatever fails while the attributes are read (an attribute syntax error,
+a value that is not an unsigned number of the right width) is `ParserError::Parse`; a missing
 `ci`/`cb`/`mb`/`nr` is `ParserError::InvalidRecord`. -/
 theorem C10_line_attribute_error_kinds (cap : Nat) (attrs : List Attr) (acc : SrcAcc) (la : LineAcc)
     (k : ErrKind) :
-    (lineAttrs [] attrs {} = .error k → k = .parse) ∧
+    (lineAttrs attrs {} = .error k → k = .parse) ∧
     (commitLine cap acc la = .err k →
       k = .invalidRecord ∧ (la.ci = none ∨ la.cb = none ∨ la.mb = none ∨ la.nr = none)) :=
-  ⟨lineAttrs_error_kind attrs [] {} k, commitLine_error_kind cap acc la k⟩
+  ⟨lineAttrs_error_kind attrs {} k, commitLine_error_kind cap acc la k⟩
 
 /-- The conditions of `wf` on names and numbers are met by ordinary XML: the minimally escaped
 form of any name unescapes to it, and the plain decimal numeral of any number within the bound is
@@ -347,15 +439,36 @@ example : enoughFuel exTruncated = 9 ∧ parse exTruncated (enoughFuel exTruncat
   decide +kernel
 
 /-- error kinds on concrete malformed elements: `<package>` without name; `<line nr="x" …>`;
-`<line>` without `nr`; a repeated attribute before the wanted one -/
+`<line>` without `nr`; an attribute syntax error (the empty-key marker) before the wanted one -/
 example :
     parse [.start sPackage []] 3 = .err .invalidRecord
     ∧ parse [.start sPackage [(sName, [112])], .start sSourcefile [(sName, [115])],
         .empty sLine [(sNr, [120]), (sCi, [49]), (sCb, [48]), (sMb, [48])]] 9 = .err .parse
     ∧ parse [.start sPackage [(sName, [112])], .start sSourcefile [(sName, [115])],
         .empty sLine [(sCi, [49]), (sCb, [48]), (sMb, [48])]] 9 = .err .invalidRecord
-    ∧ parse [.start sPackage [([97], [49]), ([97], [50]), (sName, [112])]] 3 = .err .parse := by
+    ∧ parse [.start sPackage [([97], [49]), ([], []), (sName, [112])], .end_ sPackage] 5 = .err .parse := by
   decide +kernel
+
+/-- repeated attributes since /repo ae885a6 (before: `Err(Parse)` for each of these reports):
+`<package a="1" a="2" name="p" name="q">` is the package `p` (first `name`);
+`<line nr="1" ci="0" mb="0" cb="0" ci="5" nr="7"/>` is line 7 with count 1 (last `ci`, last `nr`);
+an attribute syntax error AFTER the wanted attribute of a `<package>` is never reached -/
+example :
+    parse [.start sPackage [([97], [49]), ([97], [50]), (sName, [112]), (sName, [113])],
+        .start sSourcefile [(sName, [65])],
+        .empty sLine [(sNr, [49]), (sCi, [48]), (sMb, [48]), (sCb, [48]), (sCi, [53]), (sNr, [55])],
+        .end_ sSourcefile, .end_ sPackage] 13
+      = .ok [([112, 47, 65], { lines := [(7, 1)] })]
+    ∧ parse [.start sPackage [(sName, [112]), ([], [])], .end_ sPackage] 5 = .ok []
+    ∧ getAttrWork sName [([97], [49]), ([97], [50]), (sName, [112]), (sName, [113])] = 3
+    ∧ lineAttrsWork [(sNr, [49]), (sCi, [48]), (sMb, [48]), (sCb, [48]), (sCi, [53]), (sNr, [55])] = 6 := by
+  decide +kernel
+
+/-- the hypotheses of `C10_repeated_attribute_first_match` / `C10_attribute_order_irrelevant` on the
+attribute list above -/
+example : NoErr [([97], [49]), ([97], [50])] ∧ (∀ a ∈ [(([97], [49]) : Attr), ([97], [50])], a.1 ≠ sName)
+    ∧ sName ≠ [] := by
+  refine ⟨?_, ?_, by decide⟩ <;> intro a ha <;> simp at ha <;> rcases ha with rfl | rfl <;> decide
 
 /-- `is_jacoco` on short inputs: the bare marker is accepted, the marker minus its last byte is not -/
 example : isJacoco jacocoMarker = true ∧ isJacoco (jacocoMarker.take 13) = false := by
